@@ -66,6 +66,14 @@ def run(tier):
         hist += gen_histories(chk, num, depth, vlib.SEED * 10 + k, 6000 if thorough else 1500)
     directed = directed_histories(chk)
     hist += directed
+    # hand-written: in-place vector operations on a masked reference with an operand of the masked and of the UNMASKED length
+    # (the second pairs each selected element with the operand's element at its own position), and with an empty selection
+    for m in ([1, 0, 1, 0], [0, 0, 0, 0], [1, 1, 1, 1], [0, 1, 1, 0]):
+        k = sum(m)
+        for src in ([1, 2, 3, 4], list(range(1, k + 1)), [1, 2, 3], [5]):
+            hist.append([{"r": "a", "op": "new", "vals": [10, 20, 30, 40]}, {"r": "c", "o": "a", "op": "getmask", "m": m},
+                         {"r": "d", "op": "new", "vals": src}, {"o": "c", "op": "iadd_v", "src": "d"}, {"o": "a", "op": "getitem", "i": 0},
+                         {"o": "c", "op": "iadd_v", "src": "c"}, {"o": "a", "op": "getitem", "i": 2}])
     hp = os.path.join(chk.work, "histories.jsonl")
     with open(hp, "w") as f:
         for h in hist:
